@@ -114,6 +114,11 @@ def _ops():
     add("observe(P2)", lambda p: tuple(observe(p["P2"])) and "observed")
     add("P5.host", lambda p: p["P5"].host)
     add("P0.query", lambda p: list(p["P0"].query.items()))
+    # several spellings of one host (UTS-46 maps fullwidth letters, decomposed accents and soft hyphens): what one of them decodes to
+    # must not depend on another having been seen
+    add("host of 'a.org'", lambda p: (impl.URL("http://a.org/x").host, impl.URL("http://xn--9ca.org/").host))
+    add("host of fullwidth/decomposed spellings", lambda p: (impl.URL("http://\uff41.org/x").host, impl.URL("http://e\u0301.org/").host))
+    add("host of 'a<soft hyphen>.org'", lambda p: out_url(impl.URL.build(scheme="http", host="a\xad.org")))
     add("P6.port", lambda p: p["P6"].port)
     add("P6.user/password", lambda p: (p["P6"].user, p["P6"].password))
     add("P6.raw_host", lambda p: p["P6"].raw_host)
